@@ -26,12 +26,16 @@ PROPS["C10"] = {
     "undecided": ["failure inside the rollback itself (second fault)", "selective undo of several dependent changes failing part-way"],
 }
 PROPS["C11"] = {
-    "sidecars": ["c11_history.py", "c10_change.py", "c11_leaves.py"],
+    "sidecars": ["c11_history.py", "c10_change.py", "c11_leaves.py", "c11_dependencies.py", "c11_dependencies2.py", "c11_history_n.py"],
     "level": "proof",
     "claim": "Proof level for the list discipline and the inverse laws of plain undo/redo: History.do clears redo, keeps the undo list within the "
              "limit (_remove_extra_items), undo/redo with empty lists are refused without effect (HistoryError exceptional post), plain undo moves exactly "
              "the last change to the redo list and un-applies it, redo is its inverse (lemma over the two contracts), ChangeSet.undo restores the tree "
-             "its do started from -- for every history.  Selective undo (dependency closure, equals never having made them) is a bounded stand-in.",
+             "its do started from -- for every history.  For selective undo the dependency search is proved: _depends_on is true exactly when the change "
+             "touches a collected resource (same, inside or containing), _FindChangeDependencies.__call__ takes the chosen change first, takes along only "
+             "changes that touch something already collected, and leaves in force only changes unrelated to the chosen change's own resources; "
+             "_perform_undos/_perform_redos move the last n changes newest-first for any n and stay consistent with the tree on a failure part-way.  "
+             "That the selective result equals never having made the changes (commutation of independent changes) is a bounded stand-in.",
     "note": "leaf inverse law unapply(c, apply(c,t)) == t is an axiom over the abstract tree (file-system behaviour of one leaf change assumed; "
             "RemoveResource.undo is a known finding); distinct change objects in the lists; single-fault assumption for exceptional posts.",
     "undecided": ["selective undo beyond the bounded domain", "leaf changes' inverse law over a concrete file-system model"],
